@@ -383,8 +383,14 @@ def rules(chk, db, want, prefix=''):
                     inl = [it for it in views[id(p)] if it[5].in_loop]
                     if not inl or inl[0][0] != 'ENC' or inl[0][1] != 'unsigned long' or inl[0][2] != 'Read':
                         why.append('an iteration does not start by decoding the entry id (uint64)')
+                # forward compatibility: the table decoder itself refuses only a wrong hash (everything else it returns is the status
+                # of a read, of Skip or of an entry reader): a count or an id it does not know is never a reason to reject
+                for p in paths:
+                    e_ = encrules.err_of(p)
+                    if e_ is not None and e_ != 'InvalidTableHash':
+                        why.append('returns %s of its own accord on path [%s]' % (e_, p.describe()[:140]))
                 chk.decide(not why, R('TL'), where, 'Encoding<%s>::ReadPayload: %s' % (short, '; '.join(sorted(set(why))) if why else
-                           'for i in [0, count): decode an id, then handle that entry'), function=ir.fn_label(f))
+                           'for i in [0, count): decode an id, then handle that entry; no count / id is refused'), function=ir.fn_label(f))
             if 'TD' in want or 'TS' in want:
                 why = []
                 why_s = []
